@@ -60,7 +60,9 @@ CLAIMED = {
             "alphabets, multi-character state names) are judged exactly by TLC (Glushkov + subset-product).  Thompson.tla "
             "models regexp_to_nfa as the code builds it (generator names, shared alphabet): checked on all trees "
             "with <= 2 (3) operators and replayed structurally into the real function; observed elimination traces "
-            "are replayed through GnfaRip's step operator down to the identical expression tree.",
+            "are replayed through GnfaRip's step operator down to the identical expression tree; (G) for DFAs with 2-3 (4) "
+            "states EVERY elimination order is forced onto the unchanged gnfa_minimize by renaming the states (the loop "
+            "follows the hash order of the names) until the hook has reported all k! orders.",
             "trusted: TLC, abstraction.py, Regex.tla/FA.tla; DFA state names other than start/accept",
             "TLA+ model with nondeterministic elimination order (TLC exhaustive) + TLC trace validation"),
     "C14": ("5/C14",
@@ -183,15 +185,20 @@ CLAIMED = {
             "under five naming schemes, NFA(2,{a,b}), the PDA/TM universes of C09/C11, empty alphabets, states named "
             "like other formats' keywords, all trees <= 2 (3) operators, simple-format grammars.  TLC also checks "
             "RoundTrip.tla: the printer composed with the line-parser model of C17 gives back every DFA(2/3,{a,b}) "
-            "and every 2-state NFA, for every order in which an edge's labels may be printed.",
+            "and every 2-state NFA, for every order in which an edge's labels may be printed; RoundTripPT.tla does the "
+            "same for print_pda / print_tm with the PDABuilder / TMBuilder models (all 2-state PDAs / TMs with <= 2 (3) "
+            "moves), GrammarRT.tla for cfg_print_simple + SimpleCFGParser (all rule lists <= 3 rules; its pinned mode "
+            "exhibits the glyph-as-terminal defect that was fixed).  The printers are one module (Printer.tla / "
+            "GrammarText.tla) shared with the Judge: every text the REAL printers wrote in the recorded round trips is "
+            "validated as a text of the printer model (binding_printed_as_model).",
             "trusted: TLC, abstraction.py, Regex.tla; character-level lexing is exercised, not modelled",
             "TLA+ composition model (TLC exhaustive) + TLC trace validation of recorded round trips"),
     "C17": ("5/C17, Appendix C",
             "Text.tla states declaratively which descriptions are well formed and which automaton one denotes "
-            "(order-free, with the documented defaults).  LineParser.tla models parse_line + the DFA/NFA builders "
+            "(order-free, with the documented defaults).  LineParser.tla models parse_line + the DFA/NFA/PDA/TM builders "
             "operationally; TLC checks over every permutation (<= 6 lines), every subset of optional declarations and "
             "every single fault that the operational outcome equals the declarative one (refinement).  (G) every "
-            "layout TLC enumerates (99k DFA, 260k NFA; every 6th in quick) is rendered and parsed by the real parser; "
+            "layout TLC enumerates (99k DFA, 260k NFA, 11k PDA, 30k TM; every 6th in quick) is rendered and parsed by the real parser; "
             "(J) random automata of all four kinds in random layouts with 18 kinds of corruption; each outcome is "
             "judged by TLC against Text.tla: well-formed => exactly the described automaton, malformed => rejected, "
             "class invariants hold.",
